@@ -7,6 +7,8 @@ import (
 	"mime"
 	"os"
 	"strings"
+	"sync"
+	"time"
 
 	"github.com/gabriel-vasile/mimetype"
 )
@@ -36,6 +38,7 @@ type metaDoc struct {
 	Lead      string             `json:"lead"`
 	Syn       string             `json:"syn"`
 	Lbl       []string           `json:"lbl"`
+	Toks      []string           `json:"toks"`
 }
 
 type metaVec struct {
@@ -232,6 +235,31 @@ func renderHostile(d *metaDoc) (string, int) {
 	return b.String(), cut
 }
 
+// renderContent writes the token string of MC_Meta's content mode (fromMetaElement) into the content
+// attribute of an http-equiv pragma; the attribute is quoted with the quote kind the tokens do not use.
+func renderContent(d *metaDoc) (doc string, past int, label string, ok bool) {
+	tok := map[string]string{"CS": "charset", "=": "=", "sp": " ", "dq": `"`, "sq": "'", ";": ";", "x": "x", "L": "k"}
+	var v strings.Builder
+	hasDq, hasSq := false, false
+	for _, t := range d.Toks {
+		v.WriteString(tok[t])
+		hasDq = hasDq || t == "dq"
+		hasSq = hasSq || t == "sq"
+	}
+	if hasDq && hasSq {
+		return "", 0, "", false
+	}
+	q := `"`
+	if hasDq {
+		q = "'"
+	}
+	var b strings.Builder
+	b.WriteString(`<!DOCTYPE html><html><head><meta http-equiv="Content-Type" content=` + q + v.String() + q + `>`)
+	past = b.Len()
+	b.WriteString("<title>t</title></head><body>x</body></html>")
+	return b.String(), past, strings.Repeat("k", len(d.Lbl)), true
+}
+
 // c02Check verifies the shape of a result; registered is the set of type strings in the tree.
 func c02Check(rep *Report, m *mimetype.MIME, err error, raw []byte, limit int64, registered map[string]bool) {
 	if m == nil {
@@ -321,6 +349,32 @@ func metadocsMain(args []string) int {
 	rep := newReport("metadocs")
 	reg := registeredSet()
 	var n, applicable, skipped, hostile, labelled, outside int64
+	// watchdog: a detection of a few hundred bytes that has not returned after 40 s never will (C01)
+	var wdMu sync.Mutex
+	var wdDoc []byte
+	var wdSince time.Time
+	go func() {
+		for {
+			time.Sleep(time.Second)
+			wdMu.Lock()
+			stuck := wdDoc != nil && time.Since(wdSince) > 40*time.Second
+			doc := wdDoc
+			wdMu.Unlock()
+			if stuck {
+				rep.violate(mkViolation("C01", "detection-does-not-return", doc, 3072, "Detect has not returned after 40 s on this document"))
+				rep.Evaluations = 1
+				rep.Extra["documents"] = 0
+				rep.Extra["declaration_applicable"] = 0
+				rep.Extra["result_type_other_than_html_xml"] = 0
+				rep.Extra["hostile_documents"] = 0
+				rep.Extra["hostile_with_charset_parameter"] = 0
+				rep.Extra["result_types"] = map[string]int{}
+				rep.Extra["declaration_outside_the_header"] = 0
+				rep.write(*out)
+				os.Exit(0)
+			}
+		}
+	}()
 	kinds := map[string]int{}
 	err := tlcVectorLines(*in, func(b []byte) {
 		var v metaVec
@@ -333,6 +387,14 @@ func metadocsMain(args []string) int {
 		var past int
 		var lbl metaLabel
 		switch d.Kind {
+		case "content":
+			var ok bool
+			doc, past, lbl.Raw, ok = renderContent(d)
+			if !ok {
+				return
+			}
+			v.Exp = lbl.Raw
+			d.Lim = []string{"default", "just-past", "zero"}[int(n)%3]
 		case "hostile":
 			doc, past = renderHostile(d)
 			hostile++
@@ -358,7 +420,13 @@ func metadocsMain(args []string) int {
 		}
 		mimetype.SetLimit(uint32(lim))
 		raw := exact([]byte(doc))
+		wdMu.Lock()
+		wdDoc, wdSince = raw, time.Now()
+		wdMu.Unlock()
 		m := mimetype.Detect(raw)
+		wdMu.Lock()
+		wdDoc = nil
+		wdMu.Unlock()
 		n++
 		c02Check(rep, m, nil, raw, lim, reg)
 		if d.Kind == "hostile" {
